@@ -37,6 +37,12 @@ class C14(Check):
     def generate(self, rng, stratum, tier):
         hier = True if stratum == 'S-hier-edges' else (rng.random() < 0.35)
         spec = models.gen_aliased(rng, hier=hier, build=rng.choice(['python', 'python', 'yaml']))
+        if rng.random() < (0.9 if stratum == 'S-hier-edges' else 0.5):
+            # coupling operators on edges, explicitly wired inputs (string attributes that get rescoped per level)
+            models.add_edge_templates(rng, spec, p=0.9 if stratum == 'S-hier-edges' else 0.6)
+        if spec.get('circuits') and rng.random() < (0.6 if stratum == 'S-hier-edges' else 0.35):
+            from checks.c08 import wrap_level
+            spec = wrap_level(spec, name='top', key='g')       # three hierarchy levels
         flat_nodes, flat_edges = models.flatten(spec)
         net = models.RefNet(spec)
         sibling = None
@@ -62,7 +68,7 @@ class C14(Check):
         }[stratum]
         ops = []
         nodes = list(flat_nodes)
-        depth = 2 if spec.get('circuits') else 1
+        depth = len(nodes[0].split('/'))
         run_kw = None
         for j in range(rng.randint(1, 7)):
             k = rng.choice(kinds)
@@ -138,7 +144,8 @@ class C14(Check):
             S = w.objs.get('S')
         fp0 = FP.fp_circuit(T)
         fps0 = FP.fp_circuit(S) if S is not None else None
-        obsv.submit(snapshot(T), 'obs_both')
+        blob0 = snapshot(T)
+        obsv.submit(blob0, 'obs_both')
         if spec.get('circuits'):
             res['probes']['hierarchical'] = 1
         first = {}
@@ -173,7 +180,7 @@ class C14(Check):
                 if key in first:
                     d = observe.diff(cmp_, first[key])
                     if d:
-                        loud = cmp_.get('status') != first[key].get('status')
+                        loud = cmp_.get('status') == 'raised' or first[key].get('status') == 'raised'
                         viol.append({'law': 'L-repeat', 'cls': 'loud' if loud else 'silent', 'key': op['op'],
                                      'detail': f'op #{k}: repeating {op["op"]}({json.dumps(op["kw"])[:160]}) on the same '
                                                f'template gave a different result: {d[:300]}'
@@ -187,11 +194,24 @@ class C14(Check):
             obsv.submit(snapshot(T), 'obs_both')
         res['faults'].update(w.fired)
         res['states'] = sorted(set(w.states))
-        snaps = obsv.collect()
+        # L-usable candidates: a compile/run that raised after other ops.  The SAME call is repeated by the pristine
+        # observer on the snapshot taken at construction; only if it succeeds there is the failure a consequence of the
+        # history (otherwise the call is refused on a fresh template too, which is not C14's business)
+        cands = []
+        seen_any = False
+        for k, (op, out) in enumerate(executed):
+            if op['op'] in ('compile', 'run') and out.get('status') == 'raised' and seen_any:
+                cands.append((k, op, out))
+            seen_any = True
+        n_snap = len(obsv.jobs)
+        for k, op, out in cands[:2]:
+            obsv.submit(blob0, 'obs_op', op=op)
+        allres = obsv.collect()
+        snaps, usable = allres[:n_snap], allres[n_snap:]
         if not viol:
             base = snaps[0]
-            for k, s in enumerate(snaps[1:]):
-                d = observe.diff(s, base, rtol=1e-12, atol=0.0)
+            for k, s_ in enumerate(snaps[1:]):
+                d = observe.diff(s_, base, rtol=1e-12, atol=0.0)
                 if d:
                     op = ops[k]
                     name = op.get('which') or op.get('api') or op['op']
@@ -199,21 +219,15 @@ class C14(Check):
                                  'detail': f'after op #{k} {name} the template compiles to a different model (pristine '
                                            f'observer): {d[:400]}'})
                     break
-        # an op that raises where the same op succeeded as the first op of a history is covered by L-repeat; an op that
-        # raises on a fresh template is not C14's business.  But compile/run on T that raise only AFTER other read-only
-        # ops (first occurrence) are compared with the observer's verdict that T still compiles:
-        if not viol and snaps[0].get('scalar', {}).get('status') == 'ok':
-            seen_heavy = False
-            for k, (op, out) in enumerate(executed):
-                if op['op'] in ('compile', 'run') and out.get('status') == 'raised' and seen_heavy \
-                        and not (op['kw'].get('vectorize') and snaps[0].get('vec_run', {}).get('status') != 'ok'):
+        if not viol:
+            for (k, op, out), pr in zip(cands[:2], usable):
+                if pr.get('status') == 'ok':
                     viol.append({'law': 'L-usable', 'cls': 'loud', 'key': op['op'],
                                  'detail': f'op #{k} {op["op"]}({json.dumps(op["kw"])[:160]}) raised {out.get("exc")}: '
-                                           f'{out.get("msg")} although the pristine observer compiles the same template '
-                                           f'without error; earlier ops: {[o["op"] + ":" + str(o.get("which") or o.get("api") or "") for o, _ in executed[:k]]}'})
+                                           f'{out.get("msg")} although the same call succeeds on the freshly constructed '
+                                           f'template in a pristine process; earlier ops: '
+                                           f'{[o["op"] + ":" + str(o.get("which") or o.get("api") or "") for o, _ in executed[:k]]}'})
                     break
-                if op['op'] in ('compile', 'run', 'to_yaml') or op.get('which') in ('get_edges', 'collect_edges'):
-                    seen_heavy = True
         heavy = any(o['op'] in ('compile', 'run', 'to_yaml') or o.get('which') in ('get_edges', 'collect_edges') for o in ops)
         res['nontrivial'] = len(ops) >= 2 and heavy and snaps[0].get('scalar', {}).get('status') == 'ok'
         return res
@@ -254,7 +268,7 @@ class C14(Check):
 
 
     def known(self):
-        PAT = ('arange() argument after *', 'cannot reshape array', 'KeyError')
+        PAT = ('arange() argument after *', 'cannot reshape array', 'KeyError', 'getitem_from_iterator', 'IndexError')
 
         def stale_bookkeeping(trace, v):
             if v.get('cls') != 'loud' or v.get('law') not in ('L-usable', 'L-repeat'):
